@@ -39,9 +39,13 @@ NearStreams == {<<r>> : r \in Recs}
 NearInit == \E s \in NearStreams, g \in {0, 1, 28} : \E c \in Cuts(s, g) : Start([s |-> s, g |-> g, cut |-> c])
 
 (* well-formed streams (C07) *)
-WfRec(t, ss, n) == [type |-> t, sigsize |-> ss, hdrsize |-> 0, body |-> n * ss, listsize |-> Hdr + n * ss, n |-> n]
+(* content: what the signature payload looks like; the decoder is agnostic to it, which is part of what is checked: *)
+(* "dup" = all entries of the list identical, "pem" = certificate data that happens to be PEM text               *)
+WfRecC(t, ss, n, ct) == [type |-> t, sigsize |-> ss, hdrsize |-> 0, body |-> n * ss, listsize |-> Hdr + n * ss, n |-> n, content |-> ct]
+WfRec(t, ss, n) == WfRecC(t, ss, n, "distinct")
 WfRecs == {WfRec("x509", ss, n) : ss \in {17, 48, 716, 1244}, n \in 1..3}
           \cup {WfRec("sha256", 48, n) : n \in 1..3} \cup {WfRec("extern", 17, n) : n \in 1..3}
+          \cup {WfRecC("x509", 716, 2, "dup"), WfRecC("sha256", 48, 2, "dup"), WfRecC("x509", 716, 1, "pem"), WfRecC("x509", 1244, 2, "pem")}
 WfStreams == {<<>>} \cup {<<a>> : a \in WfRecs} \cup {<<a, b>> : a \in WfRecs, b \in WfRecs}
              \cup (IF Tier = "t" THEN {<<a, b, c>> : a \in WfRecs, b \in WfRecs, c \in WfRecs} ELSE {})
 WfInit == \E s \in WfStreams : Start([s |-> s, g |-> 0, cut |-> PhysLen(s)])
